@@ -1,18 +1,21 @@
 /-
-C13 — `Exp2` (osmomath/exp2.go): relative error, PARTIAL.
+C13 — `Exp2` (osmomath/exp2.go): the clause "two-to-the-x agrees with the true value to a relative 10^-18",
+PROVED IN FULL for every input of the domain [0, 2^9] — with the sharper constant 10^-21.
 
-The clause "two-to-the-x agrees with the true value to a relative 10^-18" splits into
  (a) ROUNDING: the 36-decimal evaluation of the rational function (6 `MulMut` for the powers, 12 `Mul` + `Add` for
      the two polynomials, one `Quo`) against the EXACT rational function `R(X) = P(X)/Q(X)` of the coded
-     coefficients — PROVED here for every input: `|exp2Rational x − R(x)| ≤ 70·10^-36` (`exp2Rational_arith_error`);
-     `Q ≥ 0.65` on [0,1] by a termwise bound, so the quotient is well conditioned;
- (b) ANALYTIC: `|R(X) − 2^X| ≤ ε₀` for all real `X ∈ [0,1]` — NOT PROVED (needs certified interval arithmetic /
-     a Taylor model of `2^X` against a degree-6/6 rational function; no such tool is installed).  It is the
-     explicit hypothesis `hA` of the `_partial` theorems below; with `ε₀ = 10^-18 − 70·10^-36` they give the
-     documented relative `10^-18`.  On sampled points (b) is decided by the `math` engine's 700-bit oracle.
-The shift by the integer part is exact (`C13.exp2_split`), so the relative error on [0, 512] is that on [0,1).
+     coefficients: `|exp2Rational x − R(x)| ≤ 70·10^-36` (`exp2Rational_arith_error`); `Q ≥ 0.65` on [0,1] by a
+     termwise bound, so the quotient is well conditioned.
+ (b) ANALYTIC: `|R(X) − 2^X| ≤ 10^-21 − 70·10^-36` for all real `X ∈ [0,1]` (`exp2_approximant_accuracy`):
+     `2^X = exp(X ln 2)` is enclosed between the degree-23 Taylor polynomials at a 39-decimal lower/upper bound of
+     ln 2 (+ Mathlib's explicit remainder), and the two resulting rational polynomials of degree 29 are bounded on
+     [0,1] by a certified checker (exact Taylor shift over ℚ on 16 subintervals, Proofs/MathPoly.lean) that the
+     kernel evaluates — no floating point, no external oracle.
+ (c) the shift by the integer part is exact (`C13.exp2_split`), so the relative error on [0, 512] is that on [0,1).
+`exp2_rel_error` is the clause; `exp2_rel_error_of_approximant` is the conditional form for any `ε₀`.
+(The true maximum of |R − 2^X| is about 4.4·10^-23, attained at X = 0 where the code special-cases the exact 1.)
 -/
-import OsmoVerif.Proofs.MathExp2b
+import OsmoVerif.Proofs.MathExp2c
 import OsmoVerif.Props.C13
 
 namespace OsmoVerif.Props.C13Exp2
@@ -28,9 +31,13 @@ theorem exp2_denominator_bounds {X : ℝ} (h0 : 0 ≤ X) (h1 : X ≤ 1) :
     1 ≤ (exp2PQ X).1 ∧ (exp2PQ X).1 ≤ 1.42 ∧ 0.65 ≤ (exp2PQ X).2 ∧ (exp2PQ X).2 ≤ 1.06 :=
   exp2PQ_bounds h0 h1
 
-/-- PARTIAL (absolute error on [0,1]): full statement would have no hypothesis `hA`; `hA` is the unproved
-analytic part (b). -/
-theorem exp2Rational_abs_error_partial {ε₀ : ℝ}
+/-- (b) analytic accuracy of the coded approximant on [0,1]. -/
+theorem exp2_approximant_accuracy {X : ℝ} (h0 : 0 ≤ X) (h1 : X ≤ 1) :
+    |(exp2PQ X).1 / (exp2PQ X).2 - (2 : ℝ) ^ X| ≤ 1 / 10 ^ 21 - 70 / 10 ^ 36 :=
+  exp2PQ_analytic h0 h1
+
+/-- conditional form (absolute error on [0,1]) for an arbitrary accuracy `ε₀` of the approximant. -/
+theorem exp2Rational_abs_error_of_approximant {ε₀ : ℝ}
     (hA : ∀ X : ℝ, 0 ≤ X → X ≤ 1 → |(exp2PQ X).1 / (exp2PQ X).2 - (2 : ℝ) ^ X| ≤ ε₀)
     {x r : Int} (h : exp2Rational x = some r) :
     |(r : ℝ) / 10 ^ 36 - (2 : ℝ) ^ ((x : ℝ) / 10 ^ 36)| ≤ ε₀ + 70 / 10 ^ 36 := by
@@ -60,8 +67,8 @@ theorem exp2Rational_abs_error_partial {ε₀ : ℝ}
     have e1 : ((P36 : Int) : ℝ) / 10 ^ 36 = 1 := by rw [P36_cast]; field_simp
     rw [e1]; simp only [Int.cast_zero, zero_div, Real.rpow_zero, sub_self, abs_zero]; positivity
 
-/-- PARTIAL (the clause itself): relative error of `Exp2` on its whole domain `[0, 2^9]`, given (b). -/
-theorem exp2_rel_error_partial {ε₀ : ℝ}
+/-- conditional form: relative error of `Exp2` on its whole domain `[0, 2^9]` given the accuracy `ε₀` of the approximant. -/
+theorem exp2_rel_error_of_approximant {ε₀ : ℝ}
     (hA : ∀ X : ℝ, 0 ≤ X → X ≤ 1 → |(exp2PQ X).1 / (exp2PQ X).2 - (2 : ℝ) ^ X| ≤ ε₀)
     {e r : Int} (h : exp2 e = some r) :
     |(r : ℝ) / 10 ^ 36 - (2 : ℝ) ^ ((e : ℝ) / 10 ^ 36)| ≤ (ε₀ + 70 / 10 ^ 36) * (2 : ℝ) ^ ((e : ℝ) / 10 ^ 36) := by
@@ -71,7 +78,7 @@ theorem exp2_rel_error_partial {ε₀ : ℝ}
     rw [C13.exp2_domain (by omega)] at h; cases h
   rw [C13.exp2_split hdom.1 hdom.2] at h
   obtain ⟨fr, hfr, rfl⟩ := Option.map_eq_some_iff.mp h
-  have hab := exp2Rational_abs_error_partial hA hfr
+  have hab := exp2Rational_abs_error_of_approximant hA hfr
   obtain ⟨e1, hp, _⟩ := tdiv_tmod_spec e P36 P36_pos
   have hq0 : 0 ≤ e.tdiv P36 := Int.tdiv_nonneg hdom.1 (by decide)
   set n := (e.tdiv P36).toNat with hn
@@ -100,15 +107,43 @@ theorem exp2_rel_error_partial {ε₀ : ℝ}
         nlinarith
     _ = _ := by ring
 
-/-- the documented constant: if (b) holds with `ε₀ = 10^-18 − 70·10^-36`, `Exp2` is within relative `10^-18`. -/
-theorem exp2_rel_error_1e18_partial
-    (hA : ∀ X : ℝ, 0 ≤ X → X ≤ 1 →
-      |(exp2PQ X).1 / (exp2PQ X).2 - (2 : ℝ) ^ X| ≤ 1 / 10 ^ 18 - 70 / 10 ^ 36)
-    {e r : Int} (h : exp2 e = some r) :
-    |(r : ℝ) / 10 ^ 36 - (2 : ℝ) ^ ((e : ℝ) / 10 ^ 36)| ≤ 1 / 10 ^ 18 * (2 : ℝ) ^ ((e : ℝ) / 10 ^ 36) := by
-  have := exp2_rel_error_partial hA h
-  have e1 : (1 : ℝ) / 10 ^ 18 - 70 / 10 ^ 36 + 70 / 10 ^ 36 = 1 / 10 ^ 18 := by ring
+/-- `exp2Rational` on [0,1]: absolute error at most `10^-21`. -/
+theorem exp2Rational_abs_error {x r : Int} (h : exp2Rational x = some r) :
+    |(r : ℝ) / 10 ^ 36 - (2 : ℝ) ^ ((x : ℝ) / 10 ^ 36)| ≤ 1 / 10 ^ 21 := by
+  have := exp2Rational_abs_error_of_approximant (fun X h0 h1 => exp2PQ_analytic h0 h1) h
+  linarith
+
+/-- THE CLAUSE, sharpened: `Exp2` is within RELATIVE `10^-21` of the true `2^e` on its whole domain. -/
+theorem exp2_rel_error_sharp {e r : Int} (h : exp2 e = some r) :
+    |(r : ℝ) / 10 ^ 36 - (2 : ℝ) ^ ((e : ℝ) / 10 ^ 36)| ≤ 1 / 10 ^ 21 * (2 : ℝ) ^ ((e : ℝ) / 10 ^ 36) := by
+  have := exp2_rel_error_of_approximant (fun X h0 h1 => exp2PQ_analytic h0 h1) h
+  have e1 : (1 : ℝ) / 10 ^ 21 - 70 / 10 ^ 36 + 70 / 10 ^ 36 = 1 / 10 ^ 21 := by ring
   rw [e1] at this; exact this
+
+/-- THE CLAUSE as documented: relative `10^-18`. -/
+theorem exp2_rel_error {e r : Int} (h : exp2 e = some r) :
+    |(r : ℝ) / 10 ^ 36 - (2 : ℝ) ^ ((e : ℝ) / 10 ^ 36)| ≤ 1 / 10 ^ 18 * (2 : ℝ) ^ ((e : ℝ) / 10 ^ 36) := by
+  have h1 := exp2_rel_error_sharp h
+  have hp : (0 : ℝ) < (2 : ℝ) ^ ((e : ℝ) / 10 ^ 36) := Real.rpow_pos_of_pos (by norm_num) _
+  have : (1 : ℝ) / 10 ^ 21 * (2 : ℝ) ^ ((e : ℝ) / 10 ^ 36) ≤ 1 / 10 ^ 18 * (2 : ℝ) ^ ((e : ℝ) / 10 ^ 36) :=
+    mul_le_mul_of_nonneg_right (by norm_num) hp.le
+  linarith
+
+/-- quasi-monotonicity (the strongest monotonicity statement that is true, cf. `C13Log.exp2_not_monotone_witness`):
+a larger exponent never gives a result smaller by more than the two relative errors. -/
+theorem exp2_quasi_mono {e e' r r' : Int} (hle : e ≤ e') (h : exp2 e = some r) (h' : exp2 e' = some r') :
+    (r : ℝ) / 10 ^ 36 ≤ (r' : ℝ) / 10 ^ 36 + 2 / 10 ^ 21 * (2 : ℝ) ^ ((e' : ℝ) / 10 ^ 36) := by
+  have h1 := exp2_rel_error_sharp h
+  have h2 := exp2_rel_error_sharp h'
+  have hle' : (e : ℝ) / 10 ^ 36 ≤ (e' : ℝ) / 10 ^ 36 := by
+    have : (e : ℝ) ≤ (e' : ℝ) := by exact_mod_cast hle
+    exact div_le_div_of_nonneg_right this (by positivity)
+  have hm : (2 : ℝ) ^ ((e : ℝ) / 10 ^ 36) ≤ (2 : ℝ) ^ ((e' : ℝ) / 10 ^ 36) :=
+    Real.rpow_le_rpow_of_exponent_le (by norm_num) hle'
+  have hp : (0 : ℝ) < (2 : ℝ) ^ ((e : ℝ) / 10 ^ 36) := Real.rpow_pos_of_pos (by norm_num) _
+  obtain ⟨a1, a2⟩ := abs_le.mp h1
+  obtain ⟨b1, b2⟩ := abs_le.mp h2
+  nlinarith
 
 /-! ## non-vacuity -/
 example : exp2Rational (5 * 10 ^ 35) = some 1414213562373095048801688724209698079 := by decide +kernel
